@@ -62,16 +62,43 @@ for _k, _v in REVIEWED.items():
 
 
 class Reviewed:
-    def __init__(self):
+    """Lookup of reviewed iterations.  An entry is written for a function, but the
+    review is about the iteration, not about where it lives: when the code was
+    moved into a helper of the same module ('extract function'), the entry is
+    still found through its module; either way one entry covers one site."""
+
+    def __init__(self, model=None):
         self.used = _Counter()
         self.matched: set[str] = set()
+        self.m = model
+        self._by_module = None
+
+    def _module_index(self):
+        if self._by_module is None:
+            self._by_module = {}
+            mods = sorted((x.replace("pytato.", "", 1) for x in self.m.modules), key=len,
+                          reverse=True)
+            for nk, entries in _NORM.items():
+                f, t = nk.split("::", 1)
+                mod = next((x for x in mods if f == x or f.startswith(x + ".")), None)
+                if mod is not None:
+                    self._by_module.setdefault(mod + "::" + t, []).extend(entries)
+        return self._by_module
 
     def lookup(self, site):
-        nk = site.func + "::" + _alpha(site.stmt_text)
+        text = _alpha(site.stmt_text)
+        nk = site.func + "::" + text
         entries = _NORM.get(nk, [])
         i = self.used[nk]
         if i < len(entries):
             self.used[nk] += 1
             self.matched.add(entries[i][0])
             return entries[i][1]
+        if self.m is not None:
+            mod = self.m.module_of(site.node).name.replace("pytato.", "", 1)
+            mk = mod + "::" + text
+            entries = [e for e in self._module_index().get(mk, []) if e[0] not in self.matched]
+            if entries:
+                self.matched.add(entries[0][0])
+                return entries[0][1] + " (entry written for " + entries[0][0].split("::")[0] + ")"
         return None
